@@ -97,7 +97,7 @@ class Fn:
             if isinstance(tgt, ast.Subscript) and dotted(tgt.value) is not None and "%s[]=" % dotted(tgt.value) in rules:
                 rule = rules["%s[]=" % dotted(tgt.value)]
                 var, t = rule[0], rule[1]
-                fillt = lambda: t.replace("{key}", self.expr(tgt.slice)).replace("{value}", self.opt(s.value))
+                fillt = lambda: (t.replace("{key}", self.expr(tgt.slice)) if "{key}" in t else t).replace("{rawvalue}", self.expr(s.value) if "{rawvalue}" in t else "").replace("{value}", self.opt(s.value) if "{value}" in t else "")
                 if len(rule) > 2 and rule[2]:
                     return var, (lambda: "py_v"), fillt()        # the store itself may raise: bind its result
                 return var, fillt, False
@@ -163,6 +163,8 @@ class Fn:
 
     # ---------------------------------------------------------------- expressions
     def expr(self, e):
+        if not isinstance(e, (ast.Constant, ast.Name)) and ast.unparse(e) in self.spec.get("exprs", {}):
+            return self.spec["exprs"][ast.unparse(e)]          # a whole expression bound by its source text
         if isinstance(e, ast.Constant):
             v = e.value
             if v is True: return "true"
